@@ -13,7 +13,7 @@ def run(tier, seed):
     mcs = [core.mc("MC_Acl", "MC_Acl" if tier == "quick" else "MC_Acl_4"), core.mc("MC_Acl", "MC_Acl_deep"),
            core.mc("MC_Acl", "MC_Acl_deviation", expect_violation="P_C19_DeviationExists")]
     n = 1500 if tier == "quick" else 12000
-    jobs = [aclhist.make_history(rng, t, WEIGHTS, nops=rng.randint(1, 4), plat="ios") for t in range(1, n + 1)]
+    jobs = [aclhist.make_history(rng, t, WEIGHTS, nops=rng.randint(1, 4), plat="ios", zero_ports=True) for t in range(1, n + 1)]
     aclhist.fill_permutations(rng, jobs)
     tjobs, gen = aclhist.tlc_histories(tier, seed, len(jobs) + 1, want={"UngroupPorts"}, cap=1500 if tier == "quick" else 20000)
     jobs += [j for j in tjobs if j["lines"]]
